@@ -533,6 +533,9 @@ func runWorker(chk *Check, tier string, sh, nsh int, base string, deadline time.
 
 // crashSite finds, in a Go panic / fatal-error stack trace, the first frame that belongs neither to the runtime nor to the
 // driver, and tells whether it is go-zenon code (true) or harness code (false).
+// CrashSite is crashSite for checks that run child processes of their own.
+func CrashSite(stack string) (string, bool) { return crashSite(stack) }
+
 func crashSite(stack string) (string, bool) {
 	for _, l := range strings.Split(stack, "\n") {
 		if l == "" || strings.HasPrefix(l, "\t") || strings.HasPrefix(l, "goroutine ") || !strings.Contains(l, "(") {
